@@ -215,26 +215,26 @@ LATER = {
     "C02": "every block passes the re-indexer, the second reduction of the grouped combine is never skipped (R-COMBINEBYPASS), finalizers "
            "propagate NaN (R-NANFINAL), the -1 of get_indexer is consulted before use as a position (R-INDEXER), explicit axis tuples are sorted "
            "before positional use (R-AXISORDER). No data-derived casts on the tree-combine path (R-COMBINECAST).",
-    "C03": "every stage of one combine runs with the caller's `sort` (R-PASSTHROUGH[sort]). Every tree node reads its whole partition (R-WHOLEPART); the last intermediate is taken for counts only under the counter's guard (R-COUNTER). No data-derived casts on the tree-combine path (R-COMBINECAST).",
-    "C04": "isfinite is never a validity mask (R-FINITE); finalizers propagate NaN (R-NANFINAL). NaN-skipping kernels answer all-NaN groups with their fill (R-ALLNANFILL); variance finalizer clamped NaN-propagatingly (R-NANFINAL).",
+    "C03": "every stage of one combine runs with the caller's `sort` (R-PASSTHROUGH[sort]). Every tree node reads its whole partition (R-WHOLEPART); the last intermediate is taken for counts only under the counter's guard (R-COUNTER). No data-derived casts on the tree-combine path (R-COMBINECAST). Options left open by a partial are supplied at every final use (R-PASSTHROUGH partial clause).",
+    "C04": "isfinite is never a validity mask (R-FINITE); finalizers propagate NaN (R-NANFINAL). NaN-skipping kernels answer all-NaN groups with their fill (R-ALLNANFILL); variance finalizer clamped NaN-propagatingly (R-NANFINAL). A finalizer runs whenever the blueprint has one (R-FINALIZERUN); intermediate sentinels resolved slot by slot (R-SLOTFILL).",
     "C05": "every path of the dtype normaliser passes the fill-value widening (R-FILLWIDEN); get_indexer's -1 is consulted (R-INDEXER); "
-           "code/label producers (R-IDENTITYCODES, R-LABELVALUE, R-MISSINGCODE). Absent-slot mask for every source of memberless slots (R-ABSENTMASK), fill written only into values of the final dtype (R-FILLCAST), integer fills widen by value (R-FILLWIDEN), gathers use from_.get_indexer(to) (R-INDEXDIR), the xarray wrapper forwards options unchanged (R-PASSTHROUGH[options]).",
-    "C06": "no Fortran-order flatten for first/last (R-FORDER). An engine that cannot honour the intermediate fill of arg reductions is refused for chunked data (R-ENGINEFILL). NaN-skipping extreme kernels never store NaN (R-ALLNANFILL).",
+           "code/label producers (R-IDENTITYCODES, R-LABELVALUE, R-MISSINGCODE). Absent-slot mask for every source of memberless slots (R-ABSENTMASK), fill written only into values of the final dtype (R-FILLCAST), integer fills widen by value (R-FILLWIDEN), gathers use from_.get_indexer(to) (R-INDEXDIR), the xarray wrapper forwards options unchanged (R-PASSTHROUGH[options]). The request handed to the blueprint does not depend on chunkedness (R-SEMNEUTRAL).",
+    "C06": "no Fortran-order flatten for first/last (R-FORDER). An engine that cannot honour the intermediate fill of arg reductions is refused for chunked data (R-ENGINEFILL). NaN-skipping extreme kernels never store NaN (R-ALLNANFILL). Intermediate sentinels resolved against their own slot's dtype (R-SLOTFILL).",
     "C07": "grouper transposition uses the forward permutation (R-PAIRS[transpose]); code producers and closed sides (R-CODEWIDTH ... R-CODELABELS). Per-grouper sequences iterate the groupers in order (R-PAIRS[groupers]); all four members of pandas' closed alphabet and one representation for labels and edges (R-CLOSEDSIDE); product grids masked (R-ABSENTMASK). Requested labels / edges wrapped without lossy casts (R-EDGEVALUE); contiguity of intervals consulted (R-CLOSEDSIDE).",
     "C08": "axis range refused (R-AXISRANGE), size-1 label dimensions broadcast for any number of reduced axes (R-PAIRS[broadcast*]), "
-           "explicit axis tuples sorted before positional use (R-AXISORDER). Unknown labels refused for every partial-axis reduction (R-PARTIALUNKNOWN); split factors looked up by axis (R-AXISKEY).",
+           "explicit axis tuples sorted before positional use (R-AXISORDER). Unknown labels refused for every partial-axis reduction (R-PARTIALUNKNOWN); split factors looked up by axis (R-AXISKEY). Variance pivot taken from the batch slice it is subtracted from (R-VARSHIFT[batch]).",
     "C09": "get_indexer's -1 consulted (R-INDEXER); dask's key array indexed with an open mesh over every axis (R-MESHINDEX); the block-id "
            "shortcut of the incidence matrix is guarded per chunk (R-BITMASK). Every tree node reads its whole partition (R-WHOLEPART). Block sets become slices only under an element-wise check (R-SLICEEXACT).",
     "C10": "the dask pre-scan accumulates in the blueprint dtype (R-SCANACC); run-start kernels handle an empty axis (R-EMPTYKERNEL); "
-           "missing-value shortcuts only for kinds without one (R-KINDMISSING, one open known finding). Single-group shortcuts bound both ends of the code range (R-ONESIDED); missing labels refused up front for cumulative scans (R-SCANMISSING).",
+           "missing-value shortcuts only for kinds without one (R-KINDMISSING, one open known finding). Single-group shortcuts bound both ends of the code range (R-ONESIDED); missing labels refused up front for cumulative scans (R-SCANMISSING). Zero-length blocks: placeholder label never stored as a code, no identity-less reduction of codes (R-SCANEMPTY); unscanned block returns only for empty blocks (R-KINDMISSING block clause).",
     "C11": "input representation restored under head flags only and never for integer-valued results (R-ROUNDTRIP); fill widening on every path "
            "(R-FILLWIDEN); blockwise plans see broadcast labels (R-BLOCKBCAST); chunk / index / key tuples have one entry per dimension for "
            "every number of reduced axes (R-ARITY, a tuple-arity algebra). maybe_promote is the identity on dtypes with a missing value (R-PROMOTEIDEM); predicates treat names and Aggregation objects alike (R-PREDFAMILY); fill written after the final cast (R-FILLCAST).",
-    "C12": "placeholder labels of all-missing blocks are typed like the labels (R-PLACEHOLDER). Unknown labels refused for every partial-axis reduction (R-PARTIALUNKNOWN).",
-    "C13": "property getters of graph-embedded classes do not write through self (R-GETTER); caller containers copied (R-CAPTURE).",
+    "C12": "placeholder labels of all-missing blocks are typed like the labels (R-PLACEHOLDER). Unknown labels refused for every partial-axis reduction (R-PARTIALUNKNOWN). The request handed to the blueprint does not depend on chunkedness (R-SEMNEUTRAL).",
+    "C13": "property getters of graph-embedded classes do not write through self (R-GETTER); caller containers copied (R-CAPTURE). No process-local resource in a blueprint attribute (R-PICKLE attribute clause).",
     "C14": "no task writes through its input (R-PURE). Caller containers are copied before being stored (R-CAPTURE); the engine is part of the graph keys (R-TOKEN). Process-wide options of other libraries changed only inside a `with` (R-OPTIONS).",
-    "C16": "per-block and combine-step label lists follow `sort` (R-BLOCKLABELS). The finalizer's re-index is skipped only for order-equal labels (R-REINDEXSKIP); per-block label lists in block order (R-BLOCKLABELS).",
-    "C18": "quantile levels bounded to [0, 1] (R-QRANGE); renames in the dispatcher keep the NaN discipline (R-DISPATCH). Vector-quantile dimensions in every arm and end-relative squeezing (R-ARITY), no-valid-member masking (R-NOVALID), out= buffers alias no later read (R-OUTALIAS).",
+    "C16": "per-block and combine-step label lists follow `sort` (R-BLOCKLABELS). The finalizer's re-index is skipped only for order-equal labels (R-REINDEXSKIP); per-block label lists in block order (R-BLOCKLABELS). Options left open by a partial are supplied at every final use (R-PASSTHROUGH partial clause).",
+    "C18": "quantile levels bounded to [0, 1] (R-QRANGE); renames in the dispatcher keep the NaN discipline (R-DISPATCH). Vector-quantile dimensions in every arm and end-relative squeezing (R-ARITY), no-valid-member masking (R-NOVALID), out= buffers alias no later read (R-OUTALIAS). finalize_kwargs reach the finalizer unreshaped (R-KWPASS).",
     "C19": "necessary conditions of 'auto works wherever map-reduce does': refusals after the plan choice are anticipated by _choose_method "
            "(R-AUTOREFUSE), refusals keyed on a user option by the proposal guard (R-AUTOPARAM), the planner never proposes cohorts with an empty "
            "map (R-EMPTYCOHORTS); and of clean refusal: alignment / axis range / quantile range / dtype normalisation refusals dominate the kernels, "
